@@ -7,7 +7,7 @@ opaque (the model's functions); what is captured is WHICH of them are called, on
 order, under which conditions, how many individuals are selected (the attribute p_reproduction / p_mutation /
 p_crossover, the rounding to an even count) and which slot receives what.  Locals are numbered by first occurrence."""
 import ast
-from translate.common import TranslationError, parse, find_class, find_func, body_wo_doc, is_logger_call, sink_branch_locals
+from translate.common import TranslationError, parse, find_class, find_func, body_wo_doc, is_logger_call, normalise
 
 GP_REL = 'opytimizer/optimizers/gp.py'
 TREE_REL = 'opytimizer/spaces/tree.py'
@@ -220,7 +220,7 @@ class Pop:
 
 def pop_method(repo, meth):
     tree, src = parse(repo, GP_REL)
-    sink_branch_locals(tree)
+    normalise(tree)
     c = find_class(tree, 'GP')
     fn = find_func(c, meth) if c is not None else None
     if fn is None:
